@@ -13,7 +13,7 @@ use tvh::rng::Rng;
 use tvh::vdir::{OpKind, VerifDirectory};
 use tvh::Args;
 
-const HEADER: &str = "From TV Require Import Base.Prelude Storage.Crash Storage.Faults.";
+const HEADER: &str = "From TV Require Import Base.Prelude Storage.Crash Storage.Faults Storage.Pipeline.";
 
 struct Outcome {
     commits: Vec<BTreeSet<u64>>,
@@ -31,7 +31,7 @@ fn main() {
     let mut rng = Rng::new(args.seed);
     let thorough = args.thorough();
     let mut out = CaseOut::new(&args.out, HEADER, 8);
-    let n_work = if thorough { 40 } else { 3 };
+    let n_work = if thorough { 8 } else { 3 };
     let mut next_id = 0u64;
     let mut coq_budget: i64 = if thorough { 600 } else { 90 };
     // replay filter: C11_ONLY="<workload>,<k>"
@@ -268,6 +268,17 @@ fn main() {
         }
         out.count("directed_reload_fault_scenarios", 1);
         let _ = i;
+    }
+    // the pipeline model with kill() as the SOURCE has it today (pin KILL_DROPS_RECEIVER): the caller fills the channel, blocks,
+    // and the last worker dies -- explored on the model for a few capacities / worker counts / death positions
+    for i in 0..(if thorough { 40 } else { 8 }) {
+        let cap = 1 + rng.below(4);
+        let workers = 1 + rng.below(3);
+        let mut evs: Vec<&str> = vec![];
+        for _ in 0..(cap + 1 + rng.below(3)) { evs.push("PSend"); if rng.chance(1, 4) { evs.push("PTake"); } }
+        for _ in 0..workers { evs.push("PWorkerDies"); if rng.chance(1, 3) { evs.push("PSend"); } }
+        out.coq_case("spec", format!("negb (stuck (prun_gen kill_drops_receiver (pipe0 {cap} {workers}) [{}]))", evs.join("; ")),
+                     json!({"what": "indexing pipeline model (Storage/Pipeline.v) with kill() as in the source: the caller must not stay blocked in send() once no worker is left", "capacity": cap, "workers": workers, "events": evs}), i < 2);
     }
     // directed: the LAST indexing worker dies of an I/O error while the caller is blocked in add_document() on a full pipeline
     for attempt in 0..2 {
